@@ -2,7 +2,7 @@ ENGINES = [
     {"name": "E1-crosshair", "path": "vlib/chx.py", "serves_properties": ["C13", "C18", "C20"],
      "kind_free_text": "CrossHair (z3) symbolic execution of harness conditions that call toasty's real functions; inductive cuts by stubbing recursive globals / the reducer; counterexamples replayed under plain CPython"},
 ]
-ENGINES.append({"name": "E2-symx-symnp", "path": "vlib/e2.py", "serves_properties": ["C02", "C08", "C14", "C15"],
+ENGINES.append({"name": "E2-symx-symnp", "path": "vlib/e2.py", "serves_properties": ["C02", "C08", "C11", "C14", "C15"],
      "kind_free_text": "own z3-backed proxy-object symbolic execution (vlib/symx.py) with a lazy symbolic numpy (vlib/symnp.py) patched into toasty's modules; claims proved per path; counterexamples and vacuity twins replayed with real numpy on the solver model's inputs"})
 NOTES = ("Solver-based checking of the real code. Exit 0 = all explored obligations held; inconclusive obligations are printed as INCONCLUSIVE and listed in evidence, never counted as held. "
          "Exit 2 = harness error. known_findings.json lists genuine defects (open / fixed).")
@@ -51,4 +51,11 @@ CHECKS["C08"] = dict(
     technique="z3 via own symbolic execution of the real StudyTiling (constructor, sub-image, image_to_tile, count, generator, tile_image) with SYMBOLIC image width/height, sub-image rectangle, pixel and tile index; tile loops summarised by one arbitrary / witness iteration",
     text="For all widths and heights up to 2^12 (quick) / 2^20 (thorough) — symbolic, not sampled — z3 shows: smallest power-of-two square >= 256, centred offsets, level count, image_to_tile, count formula = enumeration size; every image pixel's witness tile is enumerated and its rectangle contains the pixel at the reported slot; rectangles of distinct tiles are disjoint and lie inside tile and image; the tile written for an arbitrary populated position holds the image pixels at their display slots and undefined values elsewhere, for 7 mode/format combinations, both parities and sub-images.",
     note="codecs = identity; int/range/min/max/progress_bar in toasty.study replaced by symbolic-aware equivalents; loop independence checked syntactically each run; sizes above the bound are outside the claim.",
+)
+
+CHECKS["C11"] = dict(
+    engine="E2-symx-symnp", ref="DESIGN.md §4.7",
+    technique="z3 (nonlinear real/integer arithmetic) via own symbolic execution of the real sampler closures with SYMBOLIC map width/height, symbolic lon/lat and uninterpreted map content",
+    text="For every map shape nx, ny in [1, 10^6] (quick) / [1, 10^9] (thorough) — symbolic — and every real lon in the variant's principal range, lat in [-pi/2, pi/2] strictly inside a cell (1e-9 relative band excluded), z3 shows each of the five samplers returns data[row, col] of the containing cell, that lon + 2*pi*m (m in [-30, 30]) samples the same cell, that indices never leave the map (for every lon), and the output shape; the Galactic variant's rotation is uninterpreted and only its wiring (argument order) is checked.",
+    note="floats as reals (np.pi = exact value of the double), numpy round/clip/%/astype as modelled by symnp (validated against real numpy on solver-chosen inputs each run); unknown solver answers are retried with other seeds and otherwise reported inconclusive.",
 )
